@@ -20,13 +20,23 @@ KINDS = {
 }
 
 
-def fallback_client(ev):
+def fallback_client(ev, before=()):
+    """property of a rejected client event without a tagged guard: by the flow it belongs to - the packet the processor
+    received last decides for session operations and sends (inbound PUBLISH/PUBREL handling is C10, the rest C09)"""
     e, t = ev.get("ev"), ev.get("pkt", {}).get("t")
+    last = None
+    for b in reversed(list(before)):
+        if b.get("ev") == "crecv":
+            last = b.get("pkt", {}).get("t")
+            break
+    inbound = last in ("PUBLISH", "PUBREL")
     if e in ("csend", "csend_err", "csend_buf"):
         return "C10" if t in ("PUBACK", "PUBREC", "PUBCOMP") else "C09"
     if e in ("crecv", "cb.call"):
         return "C10"
     if e.startswith("sess."):
+        if e in ("sess.delete", "sess.save", "sess.lookup") and last is not None:
+            return "C10" if inbound else "C09"
         return "C10" if ev.get("d") == "in" else "C09"
     if e in ("svc.ret", "svc.online", "svc.offline", "svc.error", "svc.msg"):
         return "C17"
@@ -351,7 +361,9 @@ def check_family(run, prop, scripts, tag, also=(), kind="broker", known=None, re
             if ev.get("ev") in HARNESS_EVENTS:
                 raise lib.Infra("trace %d rejected at harness event %s (position %d): modelling/harness error, not a verdict about gomqtt\n%s"
                                 % (tr, ev.get("ev"), x["pos"], json.dumps(ev)[:400]))
-            fb = fallback(ev) if kind == "broker" else "C19" if kind == "conn" else fallback_client(ev)
+            tr_events = x.get("trace", trace_of(events, tr))
+            before = [e2 for e2 in tr_events if e2.get("seq", 0) < ev.get("seq", 0)]
+            fb = fallback(ev) if kind == "broker" else "C19" if kind == "conn" else fallback_client(ev, before)
             tags = {fb} if fb else set()
             names = ["(no action of the specification produces this event: %s)" % ev.get("ev")]
         x["tags"], x["names"] = sorted(tags), names
